@@ -556,8 +556,15 @@ def _r0510(ck, prog, cfg):
             if not is_callee(t, r"as std::cmp::PartialEq(<.*>)?>::(eq|ne)$"):
                 why = "calls %s" % (callee(t) or "?").rsplit("::", 2)[-2:]
                 break
-            a = src_of_operand(f, t["args"][0], through_calls=TRANSPARENT)
-            o = src_of_operand(f, t["args"][1], through_calls=TRANSPARENT)
+            def res(op_, depth=0):
+                s_ = src_of_operand(f, op_, through_calls=TRANSPARENT)
+                # `let (lhs, rhs) = (self.x(), other.x());` - a component of a tuple built in this function
+                if s_.kind == "agg" and s_.rv.get("ak") == "tuple" and len(s_.fields) == 1 and s_.fields[0].isdigit() and depth < 4 \
+                        and int(s_.fields[0]) < len(s_.rv.get("ops") or []):
+                    return res(s_.rv["ops"][int(s_.fields[0])], depth + 1)
+                return s_
+            a = res(t["args"][0])
+            o = res(t["args"][1])
             field_pair = a.kind == "path" and o.kind == "path" and {a.root, o.root} == {"self", "other"} and a.fields == o.fields and a.fields
             # the whole content through the same accessor on both sides: self.as_bytes() == other.as_bytes()
             whole_pair = False
